@@ -22,8 +22,9 @@
    "<ip>,<tcp|udp|sctp>:<port>" of an IP_AND_PORT set).
 
    What the checker does NOT look at (so neither does this model): Rule.ip_version (unless the tree carries the
-   repair, see kv_ipver), Rule.icmp / not_icmp, and - in effect - named-port sets: matchPort asks the set for the bare
-   decimal port ("8080") while the members of such a set are "<ip>,<proto>:<port>" strings, so the lookup never hits.
+   repair, see kv_ipver), Rule.icmp / not_icmp, and - in effect, on the pinned tree - named-port sets: matchPort asks
+   the set for the bare decimal port ("8080") while the members of such a set are "<ip>,<proto>:<port>" strings, so
+   the lookup never hits (kv_named = the repaired lookup with the "<ip>,<proto>:<port>" key of the flow).
    HTTP / service-account / namespace matches are outside PolicyRef.rule: the flow carries no principal and no HTTP
    data, for which those matches are vacuously true in match.go. *)
 From Coq Require Import List NArith Bool.
@@ -39,12 +40,13 @@ Open Scope N_scope.
                           one) ends in deny (as `DefaultAction != "Pass"` does in the other dataplanes) instead of
                           failing the evaluation with INVALID_ARGUMENT
    kv_ipver             : match() honours Rule.ip_version
-   kv_trie              : ipNetSet lookup also finds member CIDRs with a prefix length strictly between (w-8) and w *)
-Record kvariant := { kv_profile_pass_next : bool; kv_default_lenient : bool; kv_ipver : bool; kv_trie : bool }.
+   kv_trie              : ipNetSet lookup also finds member CIDRs with a prefix length strictly between (w-8) and w
+   kv_named             : matchPort / matchNotPort look named-port sets up with the "<ip>,<proto>:<port>" key *)
+Record kvariant := { kv_profile_pass_next : bool; kv_default_lenient : bool; kv_ipver : bool; kv_trie : bool; kv_named : bool }.
 Definition fixed_kvariant : kvariant :=
-  {| kv_profile_pass_next := true; kv_default_lenient := true; kv_ipver := true; kv_trie := true |}.
+  {| kv_profile_pass_next := true; kv_default_lenient := true; kv_ipver := true; kv_trie := true; kv_named := true |}.
 Definition pinned_kvariant : kvariant :=
-  {| kv_profile_pass_next := false; kv_default_lenient := false; kv_ipver := false; kv_trie := false |}.
+  {| kv_profile_pass_next := false; kv_default_lenient := false; kv_ipver := false; kv_trie := false; kv_named := false |}.
 
 (* ------------------------------------------------------------------ input: endpoint + policy store *)
 Inductive kdefault := KdDeny | KdPass | KdUnset.     (* TierInfo.DefaultAction: "Deny" / "Pass" / "" *)
@@ -85,11 +87,14 @@ Definition chk_nets_pos (nets : list cidr) (v : ipver) (x : N) : bool :=
   is_nil nets || existsb (fun c => in_cidr c v x) nets.
 Definition chk_nets_neg (nets : list cidr) (v : ipver) (x : N) : bool :=
   negb (existsb (fun c => in_cidr c v x) nets).
-(* matchPort / matchNotPort: the named-port lookups never hit (see header) *)
-Definition chk_ports_pos (ranges : list port_range) (named : list N) (port : N) : bool :=
-  (is_nil ranges && is_nil named) || in_ranges ranges port.
-Definition chk_ports_neg (ranges : list port_range) (named : list N) (port : N) : bool :=
-  (is_nil ranges && is_nil named) || negb (in_ranges ranges port).
+(* matchPort / matchNotPort: on the pinned tree the named-port lookups never hit (see header); an unknown set is skipped *)
+Definition chk_named_hit (kv : kvariant) (tbl : sets_table) (named : list N) (a pr port : N) : bool :=
+  kv_named kv
+  && existsb (fun id => match assoc id tbl with None => false | Some ens => store_has_ipport ens a pr port end) named.
+Definition chk_ports_pos (kv : kvariant) (tbl : sets_table) (ranges : list port_range) (named : list N) (a pr port : N) : bool :=
+  (is_nil ranges && is_nil named) || in_ranges ranges port || chk_named_hit kv tbl named a pr port.
+Definition chk_ports_neg (kv : kvariant) (tbl : sets_table) (ranges : list port_range) (named : list N) (a pr port : N) : bool :=
+  (is_nil ranges && is_nil named) || negb (in_ranges ranges port || chk_named_hit kv tbl named a pr port).
 Definition chk_proto (r : rule) (p : packet) : bool :=
   (1 <=? pk_proto p) && (pk_proto p <=? 255)
   && opt_ok (r_proto r) (N.eqb (pk_proto p))
@@ -103,16 +108,16 @@ Definition chk_match (kv : kvariant) (tbl : sets_table) (r : rule) (p : packet) 
   (* matchSource *)
   chk_sets_all tbl (r_src_ipsets r) (fun ens => store_has_ip kv w ens (pk_src p))
   && chk_sets_none tbl (r_not_src_ipsets r) (fun ens => store_has_ip kv w ens (pk_src p))
-  && chk_ports_pos (r_src_ports r) (r_src_named_ports r) (pk_sport p)
-  && chk_ports_neg (r_not_src_ports r) (r_not_src_named_ports r) (pk_sport p)
+  && chk_ports_pos kv tbl (r_src_ports r) (r_src_named_ports r) (pk_src p) (pk_proto p) (pk_sport p)
+  && chk_ports_neg kv tbl (r_not_src_ports r) (r_not_src_named_ports r) (pk_src p) (pk_proto p) (pk_sport p)
   && chk_nets_pos (r_src_nets r) v (pk_src p)
   && chk_nets_neg (r_not_src_nets r) v (pk_src p)
   (* matchDestination *)
   && chk_sets_all tbl (r_dst_ipsets r) (fun ens => store_has_ip kv w ens (pk_dst p))
   && chk_sets_none tbl (r_not_dst_ipsets r) (fun ens => store_has_ip kv w ens (pk_dst p))
   && chk_sets_all tbl (r_dst_ipport_sets r) (fun ens => store_has_ipport ens (pk_dst p) (pk_proto p) (pk_dport p))
-  && chk_ports_pos (r_dst_ports r) (r_dst_named_ports r) (pk_dport p)
-  && chk_ports_neg (r_not_dst_ports r) (r_not_dst_named_ports r) (pk_dport p)
+  && chk_ports_pos kv tbl (r_dst_ports r) (r_dst_named_ports r) (pk_dst p) (pk_proto p) (pk_dport p)
+  && chk_ports_neg kv tbl (r_not_dst_ports r) (r_not_dst_named_ports r) (pk_dst p) (pk_proto p) (pk_dport p)
   && chk_nets_pos (r_dst_nets r) v (pk_dst p)
   && chk_nets_neg (r_not_dst_nets r) v (pk_dst p)
   (* matchL4Protocol (+ ip_version with the repair) *)
